@@ -2046,8 +2046,12 @@ class ParseElementDoc(E2Harness):
         """recorded finding: a character element holds more than one text item (a comment split its text)"""
         raw = e.fields[0].fields[0].cell.v.fields[0]
         items = raw.fields[3].items
-        # only character-data elements: several text items are what a mixed-content element (L-2) legitimately holds
-        if raw.fields[2].fields[1].conc() in (T_SN, T_CAT, T_SUP) and sum(1 for it in items if it.variant == 'CharacterData') > 1:
+        # a character-data element with several text items, or a mixed-content element (L-2) with two ADJACENT text items
+        # (text items separated by sub-elements are what mixed content legitimately holds)
+        tcode = raw.fields[2].fields[1].conc()
+        if tcode in (T_SN, T_CAT, T_SUP) and sum(1 for it in items if it.variant == 'CharacterData') > 1:
+            return True
+        if tcode == T_L2 and any(a.variant == 'CharacterData' and b.variant == 'CharacterData' for a, b in zip(items, items[1:])):
             return True
         return any(self.has_split_text(it.fields[0]) for it in items if it.variant == 'Element')
 
@@ -2088,7 +2092,7 @@ class ParseElementDoc(E2Harness):
                     if isinstance(e, Agg) and e.variant in ('ParserError', 'LexerError'):
                         ln = e.fields[1]
                         total = bv(1, 64)
-                        for b in self.text:
+                        for b in self.text + [x for cb in self.comments for x in cb]:
                             total = total + z3.If(b == 0x0a, bv(1, 64), bv(0, 64))
                         self.require(ex, z3.And(z3.UGE(ln.e, 1), z3.ULE(ln.e, total)), 'error names a line outside the document')
             return
@@ -2098,7 +2102,7 @@ class ParseElementDoc(E2Harness):
                 if isinstance(e, Agg) and e.variant in ('ParserError', 'LexerError'):
                     ln = e.fields[1]
                     total = bv(1, 64)
-                    for b in self.text:
+                    for b in self.text + [x for cb in self.comments for x in cb]:
                         total = total + z3.If(b == 0x0a, bv(1, 64), bv(0, 64))
                     self.require(ex, z3.And(z3.UGE(ln.e, 1), z3.ULE(ln.e, total)), 'error names a line outside the document')
         if rs.variant == 'Ok':
